@@ -34,7 +34,7 @@ func NewMeta(r *Recorder, im *Image) *Meta {
 }
 
 func (m *Meta) Load(dir string) (types.PersistentState, error) {
-	_, f, err := m.R.begin(Ev{Src: "meta", Call: "mload"}, false)
+	seq, f, err := m.R.begin(Ev{Src: "meta", Call: "mload"}, false)
 	if err != nil {
 		return types.PersistentState{}, err
 	}
@@ -44,6 +44,8 @@ func (m *Meta) Load(dir string) (types.PersistentState, error) {
 	m.R.mu.Lock()
 	defer m.R.mu.Unlock()
 	m.loaded = true
+	lc := cloneState(m.state)
+	m.R.Log[seq].Meta = &lc // what the code was handed (spec/WalImplTrace.tla learns the metadata from it)
 	return cloneState(m.state), nil
 }
 
